@@ -235,6 +235,7 @@ func (s *Syncer[H]) incomingNetworkHead(ctx context.Context, head H) error {
 		return err
 	}
 
+	verifhook.At("sync.incomingNetworkHead.afterVerify")
 	s.setLocalHead(ctx, head)
 	return nil
 }
